@@ -1366,6 +1366,10 @@ impl Gen {
     }
 
     fn amount(&mut self) -> f64 {
+        if self.rng.one_in(25) {
+            // dust and giants: sums like 0.1 + 0.2, and a balance next to which one share is noise
+            return *self.rng.pick(&[0.1, 0.2, 0.3, 1.0e12]);
+        }
         *self.rng.pick(&[1000.0, 10_000.0, 100_000.0, 100_000.0, 12_345.5, 250.0, 1_000_000.0])
     }
 
@@ -1381,7 +1385,9 @@ impl Gen {
         let _ = ds;
         let shares = if typ.is_buy() {
             let k = if ask > 0.0 { (o.cash / ask).floor().max(0.0) } else { 0.0 };
-            match self.rng.usize(12) {
+            match self.rng.usize(14) {
+                12 => *self.rng.pick(&[5.0e-17, 0.1, 0.2, 0.3]),
+                13 => if k > 4.0e9 { 2.0e9 } else { 1.0 },
                 0 => 0.0,
                 1 => k,
                 2 => k + 1.0,
@@ -1394,7 +1400,8 @@ impl Gen {
             }
         } else {
             let h = o.holdings.get(&symbol).copied().unwrap_or(0.0);
-            match self.rng.usize(10) {
+            match self.rng.usize(11) {
+                10 => *self.rng.pick(&[5.0e-17, 0.1, 0.2, 0.3]),
                 0 => 0.0,
                 1 | 2 => h,
                 3 => h + 1.0,
@@ -1413,7 +1420,9 @@ impl Gen {
             Some(X(if p > 0.0 { p } else { base }))
         };
         self.next_tag += 1;
-        Some(OrderSpec { typ, symbol, shares: X(shares), price, preset_id: None })
+        // an order object that already carries an id (e.g. one handed back by a tick and re-used)
+        let preset_id = if self.rng.one_in(20) { Some(self.rng.below(8)) } else { None };
+        Some(OrderSpec { typ, symbol, shares: X(shares), price, preset_id })
     }
 
     fn weights(&mut self, o: &Obs, ds: &DatasetSpec) -> (Vec<(String, X)>, Vec<usize>) {
@@ -1464,7 +1473,9 @@ impl Gen {
             match self.rng.weighted(&self.cfg.w) {
                 0 => BOp::Deposit { amt: X(self.amount()) },
                 1 => {
-                    let amt = match self.rng.usize(6) {
+                    let amt = match self.rng.usize(8) {
+                        6 => f64::from_bits(o.cash.max(0.0).to_bits() + 1), // the next double above the balance
+                        7 => *self.rng.pick(&[0.3, 0.1 + 0.2, 0.1]),
                         0 => o.cash,
                         1 => o.cash + 1.0,
                         2 => o.cash / 2.0,
